@@ -24,7 +24,8 @@ deriving Repr, DecidableEq
 
 structure World where
   lookupds : List Lookupd      -- configured nsqlookupd addresses ([] = direct-nsqd mode)
-  nsqds : List Nsqd            -- every nsqd that exists (configured ones first in nsqd mode)
+  nsqdAddrs : List String      -- configured nsqd addresses (direct-nsqd mode)
+  nsqds : List Nsqd            -- every nsqd that exists; any other address refuses connections
 deriving Repr
 
 inductive Req
@@ -79,6 +80,9 @@ def lookupdMode (w : World) : Bool := !w.lookupds.isEmpty
 def nodeUp (w : World) (node : String) : Bool :=
   w.nsqds.any (fun n => n.addr == node && n.up)
 
+def nodeHasTopic (w : World) (node : String) : Bool :=
+  w.nsqds.any (fun n => n.addr == node && n.up && n.hasTopic)
+
 /-- Does the producer lookup use the nsqlookupds? (`CreateTopicChannel` always does.) -/
 def viaLookupd (w : World) (a : Action) : Bool :=
   a.kind == .createChannel || lookupdMode w
@@ -90,7 +94,7 @@ def lookupFailed (w : World) (a : Action) : Bool :=
   | .tombstone => !nodeUp w a.node
   | _ =>
     if viaLookupd w a then w.lookupds.all (fun l => !l.up)
-    else w.nsqds.all (fun n => !n.up)
+    else w.nsqdAddrs.all (fun a => !nodeUp w a)
 
 /-- The producers the action is sent to: what the responding upstreams report. -/
 def producersFor (w : World) (a : Action) : List String :=
@@ -101,7 +105,7 @@ def producersFor (w : World) (a : Action) : List String :=
     if lookupFailed w a then []
     else if viaLookupd w a then
       dedup ((w.lookupds.filter (·.up)).flatMap (·.producers))
-    else (w.nsqds.filter (fun n => n.up && n.hasTopic)).map (·.addr)
+    else w.nsqdAddrs.filter (nodeHasTopic w)
 
 /-- The commands POSTed to every configured nsqlookupd. -/
 def lookupdCommands (w : World) (a : Action) : List String :=
@@ -122,9 +126,9 @@ def lookupGets (w : World) (a : Action) : List Req :=
       (if nodeUp w a.node then [Req.get a.node "/stats?format=json&include_clients=false"] else [])
   | _ =>
     if viaLookupd w a then w.lookupds.map (fun l => Req.get l.addr ("/lookup?" ++ topicQS a))
-    else w.nsqds.flatMap (fun n =>
-      Req.get n.addr ("/stats?format=json&" ++ topicQS a ++ "&include_clients=false") ::
-        (if n.up && n.hasTopic then [Req.get n.addr "/info"] else []))
+    else w.nsqdAddrs.flatMap (fun n =>
+      Req.get n ("/stats?format=json&" ++ topicQS a ++ "&include_clients=false") ::
+        (if nodeHasTopic w n then [Req.get n "/info"] else []))
 
 def lookupdPosts (w : World) (a : Action) : List Req :=
   (lookupdCommands w a).flatMap (fun c => w.lookupds.map (fun l => Req.post l.addr c))
@@ -150,6 +154,11 @@ def result (w : World) (a : Action) : Err :=
   if lookupFailed w a then .full
   else if (requests w a).any (reqFails w) then .partialErr
   else .none
+
+/-- Can the harness see this request (does anybody listen on the address)? -/
+def observable (w : World) : Req → Bool
+  | .get addr _ => w.lookupds.any (·.addr == addr) || w.nsqds.any (·.addr == addr)
+  | .post addr _ => w.lookupds.any (·.addr == addr) || w.nsqds.any (·.addr == addr)
 
 def kindOfName (n : String) : Option Kind :=
   if n == "DeleteTopic" then some .deleteTopic
